@@ -69,6 +69,7 @@ var c06Needles = map[string]string{
 	"dots-import":             "c14wrap",
 	"replace-import-shadowed": "example.com/conversion/to",
 	"bump":                    "c14bump",
+	"elide-then-delete":       "c14",
 }
 
 var c06PkgRe = regexp.MustCompile(`(?m)^package ([A-Za-z_][A-Za-z0-9_]*)`)
